@@ -33,7 +33,7 @@ Record dtables := {
          -> did the method return normally on every sample of that scalar class *)
   t_grammar : list (string * (list string * list (string * list string)));
       (* input type -> (classes of the root, class -> classes of its children); the pseudo-class "#kinds" lists
-         the scalar classes a leaf of that input type can carry *)
+         the scalar classes a leaf of that input type can carry, "#keykinds" those of a mapping key *)
   t_subedit : list string;     (* node classes whose edit prints its sub-edits through the same formatter *)
   t_context : list (string * string)   (* (root formatter, class) printed by print_parent_context in -d *)
 }.
@@ -56,7 +56,8 @@ Record event := {
   e_mro : list string;            (* its MRO as observed *)
   e_is_edit : bool;               (* an Edit (true) or a TreeNode (false) *)
   e_haskids : bool;               (* TreeNode with at least one child *)
-  e_kind : string;                (* scalar class of a leaf's value ("" for containers and edits) *)
+  e_kind : string;                (* scalar class of a leaf's value; "key:" + scalar class of the key of a key/value
+                                     pair; "" for other containers and for edits *)
   e_res : option (finst * string * string)   (* resolved (instance, method, owner class of the method) *)
 }.
 
